@@ -257,11 +257,11 @@ fn bump_cap(cap: &mut plonky2::hash::merkle_tree::MerkleCap<F, <C as GenericConf
 /// Applies the value tamper of `class` at a seeded position; None = the class is empty for this
 /// proof shape (no reduction layers, no lookups, zero-length path, ...).
 pub fn tamper(p: &mut PW, class: &str, r: &mut ChaCha8Rng) -> Option<Value> {
-    let (base, arg) = match class.split_once(':') {
-        Some((b, a)) => (b, a.parse::<usize>().ok()),
-        None => (class, None),
-    };
+    let (base, arg) = split_class(class);
     let fp = &mut p.proof.opening_proof;
+    // layer argument of the model (0 .. NL-1, NL = min(layers, 3)): the last model layer is the proof's last layer
+    let nreal = fp.commit_phase_merkle_caps.len();
+    let arg = if matches!(base, "commit_cap" | "step_eval" | "step_path") { arg.map(|l| model_layer(l, nreal)) } else { arg };
     match base {
         "pis" => {
             if p.public_inputs.is_empty() {
@@ -287,7 +287,10 @@ pub fn tamper(p: &mut PW, class: &str, r: &mut ChaCha8Rng) -> Option<Value> {
             if fp.commit_phase_merkle_caps.is_empty() {
                 return None;
             }
-            let l = r.gen_range(0..fp.commit_phase_merkle_caps.len());
+            let l = arg.unwrap_or_else(|| r.gen_range(0..fp.commit_phase_merkle_caps.len()));
+            if l >= fp.commit_phase_merkle_caps.len() {
+                return None;
+            }
             let mut d = bump_cap(&mut fp.commit_phase_merkle_caps[l], r)?;
             d["layer"] = json!(l);
             Some(d)
@@ -353,6 +356,24 @@ pub fn tamper(p: &mut PW, class: &str, r: &mut ChaCha8Rng) -> Option<Value> {
     }
 }
 
+pub fn split_class(class: &str) -> (&str, Option<usize>) {
+    match class.split_once(':') {
+        Some((b, a)) => (b, a.parse::<usize>().ok()),
+        None => (class, None),
+    }
+}
+/// model layer l of a model with NL = min(nreal, 3) layers -> layer of the real proof
+pub fn model_layer(l: usize, nreal: usize) -> usize {
+    let nl = nreal.min(3);
+    if nl > 0 && l == nl - 1 {
+        nreal - 1
+    } else if l < nl {
+        l
+    } else {
+        usize::MAX
+    }
+}
+
 /// verifier-data classes: returns the verifier data to present (`own` = the inner circuit's,
 /// `other` = another circuit's with the same cap height)
 pub fn tamper_vd(own: &VD, other: &VD, class: &str, r: &mut ChaCha8Rng) -> Option<(VD, Value)> {
@@ -391,14 +412,22 @@ pub fn tamper_vd(own: &VD, other: &VD, class: &str, r: &mut ChaCha8Rng) -> Optio
 pub fn knobs_for(class: &str, nch: usize, nlayers: usize, r: &mut ChaCha8Rng) -> Option<Knobs> {
     let mut k = Knobs::default();
     k.lenient_trim = true;
-    match class {
+    let (base, arg) = split_class(class);
+    match base {
         "bad_pow" => k.pow_witness = Some(r.gen_range(0..GOLDILOCKS)),
         "final_delta" => k.fri_final_poly_delta = Some((0, 1 + r.gen_range(0..1000u64))),
         "layer_delta" => {
             if nlayers == 0 {
                 return None;
             }
-            k.fri_layer_delta = Some((r.gen_range(0..nlayers), 1 + r.gen_range(0..1000u64)))
+            let l = match arg {
+                Some(l) => model_layer(l, nlayers),
+                None => r.gen_range(0..nlayers),
+            };
+            if l >= nlayers {
+                return None;
+            }
+            k.fri_layer_delta = Some((l, 1 + r.gen_range(0..1000u64)))
         }
         "perturb_q0" => k.perturb_quotient = Some(0),
         "perturb_qlast" => k.perturb_quotient = Some(nch - 1),
